@@ -188,7 +188,7 @@ fn fuzz_mix(u: &mut Unstructured) {
         let nk = u.int_in_range(1usize..=4)?;
         let mut kinds = Vec::new();
         for _ in 0..nk {
-            kinds.push([MKind::Strong, MKind::OptStrong, MKind::Weak, MKind::Weak][u.int_in_range(0usize..=3)?]);
+            kinds.push([MKind::Strong, MKind::OptStrong, MKind::Weak, MKind::OptWeak][u.int_in_range(0usize..=3)?]);
         }
         let mut init = Vec::new();
         for _ in 0..4 {
